@@ -84,6 +84,58 @@ let rec pytype (v : pyval) : sx = match v with
   | PList l -> L (A "list" :: List.map pytype l)
   | PDict d -> L (A "dict" :: List.map (fun (k, x) -> L [str_sx k; pytype x]) d)
 
+(* ---- inputs of the file-level paths *)
+let ev_of = function
+  | L [kind; src] -> (sx_str kind, { a_tag = src_of src; a_idx = O; a_idx_end = None; a_sev = None })
+  | _ -> failwith "event"
+let evs_of x = List.map ev_of (sx_list x)
+let issues_of x = List.map issue_of (sx_list x)
+let sc_input_of = function
+  | L [name; st; refs; nested; defs; cols; bad] ->
+    { si_name = opt cval_of name;
+      si_struct = List.map (function
+        | L [n; evs; keys] -> { stc_name = sx_str n; stc_events = evs_of evs;
+                                stc_keys = List.map (function L [k; e] -> (sx_str k, evs_of e) | _ -> failwith "stkey") (sx_list keys) }
+        | _ -> failwith "stcol") (sx_list st);
+      si_refs = List.map (function
+        | L [n; strs; self] -> { rfc_name = sx_str n;
+                                 rfc_strs = List.map (function
+                                   | L [k; h; e] -> { rfs_key = opt sx_str k; rfs_hs = hstr_of h; rfs_events = evs_of e }
+                                   | _ -> failwith "rfstr") (sx_list strs);
+                                 rfc_self = evs_of self }
+        | _ -> failwith "rfcol") (sx_list refs);
+      si_nested = evs_of nested;
+      si_defs = issues_of defs;
+      si_cols = List.map (function
+        | L [n; strs] -> { scc_name = sx_str n;
+                           scc_strs = List.map (function
+                             | L [k; h; basic; combos] ->
+                               { scs_key = opt sx_str k; scs_hs = hstr_of h; scs_basic = issues_of basic;
+                                 scs_combos = List.map (function L [h2; l] -> (hstr_of h2, issues_of l) | _ -> failwith "combo") (sx_list combos) }
+                             | _ -> failwith "scstr") (sx_list strs) }
+        | _ -> failwith "sccol") (sx_list cols);
+      si_badspot = List.map (function L [n; e] -> (sx_str n, evs_of e) | _ -> failwith "bad") (sx_list bad) }
+  | _ -> failwith "sc_input"
+let pstr_of = function L [h; t] -> { ps_hs = hstr_of h; ps_true = sx_bool t } | _ -> failwith "pstr"
+let tb_input_of = function
+  | L [name; mapping; km; badrefs; unordered; rows; onsets] ->
+    { ti_name = opt cval_of name; ti_mapping = issues_of mapping;
+      ti_keymissing = List.map (function
+        | L [c; res] -> (cval_of c, List.map (function L [r; e] -> (z_of_int (sx_int r), ev_of e) | _ -> failwith "km") (sx_list res))
+        | _ -> failwith "kmcol") (sx_list km);
+      ti_badrefs = evs_of badrefs; ti_unordered = evs_of unordered;
+      ti_rows = List.map (function
+        | L [id; label; cells; masked; rs; full] ->
+          { tr_id = sx_nat id; tr_label = z_of_int (sx_int label);
+            tr_cells = List.map (function L [c; h; b] -> { tbc_col = cval_of c; tbc_hs = hstr_of h; tbc_basic = issues_of b }
+                                        | _ -> failwith "cell") (sx_list cells);
+            tr_masked = sx_bool masked; tr_rowstr = pstr_of rs; tr_full = issues_of full }
+        | _ -> failwith "row") (sx_list rows);
+      ti_onsets = opt (fun x -> List.map (function
+        | L [o; label; ps; full] -> { or_orig = sx_nat o; or_label = z_of_int (sx_int label); or_str = pstr_of ps; or_full = issues_of full }
+        | _ -> failwith "orow") (sx_list x)) onsets }
+  | _ -> failwith "tb_input"
+
 let rec iter n f x = if n <= 0 then Ok x else (match f x with Ok y -> iter (n - 1) f y | Exn e -> Exn e)
 
 let () = main_loop (fun x ->
@@ -125,4 +177,11 @@ let () = main_loop (fun x ->
       | L [A "pop"] :: r -> (match pop_error_context h with Ok h' -> go h' r | Exn e -> L [A "exn"; exn_sx e])
       | _ -> failwith "op" in
     go { h_ctx = []; h_warn = sx_bool warn } (sx_list ops)
+  | L [A "sidecar"; fixed; sort_early; warn; ctx; inp] ->
+    let h = { h_ctx = ctx_of ctx; h_warn = sx_bool warn } in
+    res_issues (sidecar_validate (sx_bool fixed) (sx_bool sort_early) h (sc_input_of inp))
+  | L [A "table"; gate; fixed; warn; ctx; inp] ->
+    let h = { h_ctx = ctx_of ctx; h_warn = sx_bool warn } in
+    let g = (match gate with A "nonempty" -> gate_nonempty | _ -> check_for_any_errors) in
+    res_issues (table_validate_gen g (sx_bool fixed) h (tb_input_of inp))
   | _ -> failwith "command")
